@@ -345,7 +345,8 @@ func (pg *program) generatePackage(pkgInfo *loader.PackageInfo) error {
 
 		newundefined := strings.Join(us, ";")
 		if newundefined == undefined {
-			break
+			// no progress, even though other functions might have been generated again.
+			return fmt.Errorf("cannot generate: %s", undefined)
 		}
 		undefined = newundefined
 
